@@ -9,6 +9,7 @@ import SqlizeModel.Proofs.SchemaIgnoring
 import SqlizeModel.Proofs.RoundsDown
 import SqlizeModel.Proofs.RoundsHash
 import SqlizeModel.Proofs.AvroScripts
+import SqlizeModel.Proofs.HashScripts
 
 namespace Sqlize
 open Spec Spec.Scope
@@ -317,5 +318,19 @@ theorem proved_avro (g : Globals) (rc : Bool) (ss : List Stmt) (db : DB) (he : e
   rw [Proved.all_eq _ _ _ Proved.colSafe_eq] at h
   rw [h.1]
   exact avro_of_schema rc ss db h.2 he need
+
+theorem Proved.tablePk_eq (s : Stmt) : Proved.stmtTablePk s = s.tablePk := by
+  cases s <;> rfl
+
+/-- **inside the executable scope, `HashValue` of the loaded script is the value of its reference schema** (real md5) -/
+theorem proved_hash (g : Globals) (rc : Bool) (ss : List Stmt) (db : DB) (he : execAll rc [] ss = some db)
+    (h : Proved.hash g ss = true) :
+    ∃ m, ReaderMysql.run {} ss = .ok m ∧ m.hashValue g = .ok (db.hashOf MD5.hex MD5.int64BE g) := by
+  unfold Proved.hash at h
+  simp only [Bool.and_eq_true, beq_iff_eq] at h
+  obtain ⟨⟨_, h2⟩, h3⟩ := h
+  rw [Proved.all_eq _ _ _ Proved.elemSafe_eq] at h2
+  rw [Proved.all_eq _ _ _ Proved.tablePk_eq] at h3
+  exact hash_of_schema MD5.hex MD5.int64BE g rc ss db h2 h3 he
 
 end Sqlize
